@@ -263,6 +263,29 @@ func systematicPkgCases(id *int, profile, scratch string, rng *rand.Rand, tier s
 			c4.RpmBuildHost = ""
 			add(c4, smallTree(), "buildhost-unset")
 		}
+		// relations that reach the parser as references to a caller's mapping (not the process environment); the same value
+		// twice in a relation list (stated twice, in order); an architecture no table knows (passed on as it is)
+		{
+			c := baseCfg("envrel")
+			c.Depends = []string{"libfoo = 1.2.3", "base-dep", "plain"}
+			c.Provides, c.Conflicts, c.Recommends = []string{"virt-1.2.3"}, []string{"old < 1.2.3"}, []string{"rec-base-dep"}
+			c.DebPredepends, c.IpkPredepends = []string{"pre >= 1.2.3"}, []string{"ipre-base-dep"}
+			addEnv(c, smallTree(), "relations-from-a-mapping", func(y string) string {
+				y = strings.ReplaceAll(y, " 1.2.3\"", " ${VERIF_RELV}\"")
+				y = strings.ReplaceAll(y, "virt-1.2.3", "virt-${VERIF_RELV}")
+				return strings.ReplaceAll(y, "base-dep", "${VERIF_RELDEP}")
+			}, map[string]string{"VERIF_RELV": "1.2.3", "VERIF_RELDEP": "base-dep"})
+			c2 := baseCfg("duprel")
+			c2.Depends = []string{"a", "b >= 1", "a", "c", "b >= 1"}
+			c2.Provides, c2.Replaces, c2.Conflicts = []string{"p", "p", "q"}, []string{"r2", "r1", "r2"}, []string{"x", "y", "x"}
+			c2.Recommends, c2.Suggests = []string{"m", "m"}, []string{"s", "t", "s"}
+			add(c2, smallTree(), "repeated-relations")
+			for _, a := range []string{"arm64v8.0", "arm64be", "amd64v3", "riscv64-unknown"} {
+				c3 := baseCfg("oddarch")
+				c3.Arch = a
+				add(c3, smallTree(), "unknown-architecture")
+			}
+		}
 		// names archlinux does not take (a character outside [A-Za-z0-9._+-], a leading hyphen or dot): archlinux refuses to
 		// build, the other formats use the name as it is
 		for _, nm := range []string{"openssl@1.1", "has~tilde", "-lead", ".dot", "ok.name+x_1"} {
@@ -537,6 +560,79 @@ func systematicPkgCases(id *int, profile, scratch string, rng *rand.Rand, tier s
 			c := baseCfg("beneathpkg")
 			c.Entries = []Entry{plain, first, {Type: "file", Src: "src/app.conf", Dst: "/opt/demo/current/conf/app.conf"}, {Type: "dir", Dst: "/opt/demo/current/data"}}
 			add(c, smallTree(), "beneath-non-directory")
+		}
+		// a tree that walks through directories the logrotate package owns (the second list of files/fs.go) and through
+		// ordinary ones, at the root and below a prefix; two trees sharing such a directory
+		{
+			mkf := func(p, body string) Node {
+				b := []byte(body)
+				return Node{P: p, Kind: "file", Mode: 0o644, Mt: 1500000000, Size: len(b), data: b, Cid: cidOf(b)}
+			}
+			mkd := func(p string) Node { return Node{P: p, Kind: "dir", Mode: 0o755, Mt: 1500000000} }
+			nodes := append(smallTree(), mkd("rootfs"), mkd("rootfs/etc"), mkd("rootfs/etc/logrotate.d"), mkf("rootfs/etc/logrotate.d/lrpkg", "rotate 4\n"),
+				mkd("rootfs/var"), mkd("rootfs/var/lib"), mkd("rootfs/var/lib/logrotate"), mkf("rootfs/var/lib/logrotate/status", "s"),
+				mkd("rootfs/usr"), mkd("rootfs/usr/lib"), mkd("rootfs/usr/lib/.build-id"), mkd("rootfs/usr/lib/.build-id/ae"), mkf("rootfs/usr/lib/.build-id/ae/1234", "id"),
+				mkd("rootfs/usr/share"), mkd("rootfs/usr/share/licenses"), mkd("rootfs/usr/share/licenses/logrotate"), mkf("rootfs/usr/share/licenses/logrotate/COPYING", "c"),
+				mkd("rootfs2"), mkd("rootfs2/etc"), mkd("rootfs2/etc/logrotate.d"), mkf("rootfs2/etc/logrotate.d/second", "rotate 2\n"))
+			c := baseCfg("lrpkg")
+			c.Entries = []Entry{{Type: "tree", Src: "rootfs", Dst: "/"}}
+			add(c, nodes, "tree-through-logrotate-dirs")
+			c2 := baseCfg("lrpkg")
+			c2.Entries = []Entry{plain, {Type: "tree", Src: "rootfs", Dst: "/"}, {Type: "tree", Src: "rootfs2", Dst: "/"}}
+			add(c2, nodes, "tree-through-logrotate-dirs")
+			c3 := baseCfg("lrpkg")
+			c3.Entries = []Entry{plain, {Type: "tree", Src: "rootfs/etc", Dst: "/etc"}, {Type: "file", Src: "src/app.conf", Dst: "/etc/logrotate.d/from-file"}}
+			add(c3, nodes, "tree-through-logrotate-dirs")
+		}
+		// a backslash is an ordinary character of a file name (a systemd-escaped unit name)
+		{
+			c := baseCfg("bslash")
+			c.NoGlob = true
+			c.Entries = []Entry{plain, {Type: "file", Src: "src/app.conf", Dst: "/etc/systemd/system/mnt-my\\x2ddata.mount"},
+				{Type: "symlink", Src: "mnt-my\\x2ddata.mount", Dst: "/etc/systemd/system/alias\\x2done.mount"}, {Type: "dir", Dst: "/var/lib/bslash/a\\b"}}
+			add(c, smallTree(), "backslash-in-names")
+		}
+		// a ghost with attributes of its own; files whose own mtime is LATER than the package's; a declared directory spelled
+		// with dot segments next to an entry in the same real directory
+		{
+			c := baseCfg("ghostattr")
+			c.Entries = []Entry{plain, {Type: "ghost", Dst: "/var/log/ghostattr/app.log", Fi: Fi{Owner: "app", Group: "adm", Mode: 0o640}, HasFi: true},
+				{Type: "ghost", Dst: "/var/lib/ghostattr/key", Fi: Fi{Mode: 0o600}, HasFi: true}, {Type: "ghost", Dst: "/var/lib/ghostattr/plain"}}
+			add(c, smallTree(), "ghost-with-attributes")
+			c2 := baseCfg("newerfiles")
+			c2.Entries = []Entry{plain, {Type: "file", Src: "src/app.conf", Dst: "/etc/newerfiles/newer.conf", Fi: Fi{Mt: 1700000000}, HasFi: true},
+				{Type: "config", Src: "src/extra.conf", Dst: "/etc/newerfiles/much-newer.conf", Fi: Fi{Mt: 2000000000}, HasFi: true},
+				{Type: "file", Src: "src/empty", Dst: "/usr/share/newerfiles/older", Fi: Fi{Mt: 1200000000}, HasFi: true}, {Type: "dir", Dst: "/var/lib/newerfiles", Fi: Fi{Mt: 1800000000}, HasFi: true}}
+			add(c2, smallTree(), "files-newer-than-the-package")
+			c3 := baseCfg("dotdir")
+			c3.Entries = []Entry{plain, {Type: "dir", Dst: "/opt/dotdir/app/../shared/", Fi: Fi{Mode: 0o750}, HasFi: true}, {Type: "file", Src: "src/app.conf", Dst: "/opt/dotdir/shared/app.conf"},
+				{Type: "dir", Dst: "/opt/dotdir/./logs/"}, {Type: "file", Src: "src/empty", Dst: "/opt/dotdir/logs/keep"}}
+			add(c3, smallTree(), "declared-dir-with-dot-segments")
+		}
+		// configuration files taken by a wildcard / a directory that also matches hidden files
+		{
+			mkf := func(p, body string) Node {
+				b := []byte(body)
+				return Node{P: p, Kind: "file", Mode: 0o600, Mt: 1500000000, Size: len(b), data: b, Cid: cidOf(b)}
+			}
+			nodes := append(smallTree(), Node{P: "conf.d", Kind: "dir", Mode: 0o755, Mt: 1500000000}, mkf("conf.d/.env", "SECRET=1\n"), mkf("conf.d/.credentials", "c"), mkf("conf.d/app.conf", "a=1\n"))
+			for _, src := range []string{"conf.d/*", "conf.d", "conf.d/.env"} {
+				c := baseCfg("hiddenconf")
+				dst := "/etc/hiddenconf/"
+				if src == "conf.d/.env" {
+					dst = "/etc/hiddenconf/.env"
+				}
+				c.Entries = []Entry{plain, {Type: "config", Src: src, Dst: dst}, {Type: "file", Src: src, Dst: strings.Replace(dst, "/etc/", "/usr/share/", 1)}}
+				add(c, nodes, "hidden-files-in-a-glob")
+			}
+		}
+		// an opted-in destination that ends in a slash and holds a reference: still "into that directory"
+		{
+			c := baseCfg("expdirpkg")
+			c.Entries = []Entry{plain, {Type: "file", Src: "src/app.conf", Dst: "/etc/expdir/", Expand: true}, {Type: "config", Src: "src/extra.conf", Dst: "/etc/expdir/conf.d/", Expand: true}}
+			addEnv(c, smallTree(), "expanded-directory-destination", func(y string) string {
+				return strings.ReplaceAll(y, "/etc/expdir/", "/etc/${VERIF_APP}/")
+			}, map[string]string{"VERIF_APP": "expdir"})
 		}
 		// an owner / group name no GNU tar header can hold (more than 32 bytes), on a declared directory, on a file: deb and ipk
 		// cannot ship the entry as declared and say so; rpm, apk and archlinux store the name
